@@ -49,11 +49,14 @@ class SubvolumeAccessor(SgzReader):
         return start, step, stop
 
     def _check_subscripts(self, subscript, coords, coord_name):
-        if subscript.start is not None and not coords[0] <= subscript.start < coords[-1] + coords[1] - coords[0]:
+        step = coords[1] - coords[0]
+        sign = -1 if step < 0 else 1        # A descending axis is traversed, and bounded, in its own direction
+        first, end = sign * coords[0], sign * (coords[-1] + step)
+        if subscript.start is not None and not first <= sign * subscript.start < end:
             raise IndexError(f"{coord_name} start {subscript.start} out of range. Axes are {self.axes_message}")
-        if subscript.stop is not None and not coords[0] < subscript.stop <= coords[-1] + coords[1] - coords[0]:
+        if subscript.stop is not None and not first < sign * subscript.stop <= end:
             raise IndexError(f"{coord_name} stop {subscript.stop} out of range. Axes are {self.axes_message}")
-        if subscript.step is not None and not subscript.step % (coords[1] - coords[0]) == 0:
+        if subscript.step is not None and not (subscript.step % step == 0 and sign * subscript.step > 0):
             raise IndexError(f"{coord_name} step {subscript.step} invalid. Axes are {self.axes_message}")
 
 
@@ -83,14 +86,17 @@ class SliceAccessor(Accessor):
     def __getitem__(self, subscript):
         if isinstance(subscript, slice):
             # Acquiris Quodcumquae Rapis
+            # Line numbers are sliced as segyio does it: defaults span all lines in the direction of the step,
+            # and numbers in the range which are not lines of the file are skipped.
+            keys = [int(k) for k in self.keys_object]
             start, stop, step = subscript.start, subscript.stop, subscript.step
-            if step is None:
-                step = int(self.keys_object[1] - self.keys_object[0])
+            increasing = step is None or step > 0
             if start is None:
-                start = int(self.keys_object[0])
+                start = min(keys) if increasing else max(keys)
             if stop is None:
-                stop = int(self.keys_object[-1] + 1)
-            return [self.values_function(index) for index in range(start, stop, step)]
+                stop = max(keys) + 1 if increasing else min(keys) - 1
+            numbers = range(*slice(start, stop, step).indices(max(keys) + 1))
+            return [self.values_function(number) for number in numbers if number in keys]
         else:
             return self.values_function(subscript)
 
